@@ -14,6 +14,8 @@ def dispatch (j : Json) : R Json := do
   | "judge.C13" => DriverGL.judge j
   | "carve" => DriverCarve.carve j
   | "carve.candidates" => DriverCarve.candidatesReq j
+  | "carve.measure" => DriverCarve.measureReq j
+  | "disc.summary" => DriverDisc.summary j
   | "combos" => DriverCarve.combos j
   | "disc.labels" => DriverDisc.labels j
   | "disc.transform" => DriverDisc.transform j
